@@ -7,6 +7,7 @@ import MindsVerif.Lemmas.SemLimit
 import MindsVerif.Lemmas.SemSeq
 import MindsVerif.Lemmas.SemAgg
 import MindsVerif.Lemmas.SemSet
+import MindsVerif.Lemmas.SemNames
 /-!
 # C08 — executing a federated plan returns what the original query returns
 
@@ -64,6 +65,13 @@ aggregate occurs anywhere (`C08_agg_limit_pushed_only_if_noagg`); LIMIT commutes
 for EVERY tree and all contents; `C08_set_unique_congr`, `C08_set_distinct_operand_sound_if_no_window` (when an extra DISTINCT in
 the operands would be sound), `C08_set_witness_distinct_before_offset`, `C08_set_witness_except_keeps_rows` (DISTINCT before
 OFFSET differs).
+
+**Round 6 — column names that need quoting** (`Model/SemNames.lean`, tie: stream `name-rebuild`): names are arbitrary character lists,
+identifiers lists of parts; `bareColumn` (= `Identifier(parts=[col.parts[-1]])`, what the planner does for the DISTINCT key, the IN
+filter and a pushed ORDER BY) denotes the same column as the qualified original for EVERY name (`C08_names_bare_resolves`), so the
+named fragment `QN` has the key columns of its index form and `C08_partial_model` carries over (`C08_names_plan_keys`,
+`C08_names_partial_model`); re-parsing the name as a dotted path agrees exactly for names without a dot
+(`C08_names_splitDots_iff`, `C08_names_dotted_eq_bare_iff`; `C08_names_witness_dotted`).
 
 Not in Lean (probe only, `tools/props/c08.py`): pushdown into the 2nd / 3rd table of a chain, ORDER BY / OFFSET of join queries,
 GROUP BY semantics of join queries, sub-selects and CTEs as join operands, join operands of set operations, IN / scalar
@@ -813,5 +821,54 @@ example :
       (.sel { tbl := 0, cols := [1, 0], distinct := true, order := [(0, false), (1, false)], limit := some 1, offset := some 1 })
     let db : DBn := [[[.int 0, .int 1], [.int 1, .null], [.int 0, .int 1]], [[.int 1, .int 1], [.int 0, .int 2]]]
     execSetPlan (planSet q []) db = [[.int 1, .int 1], [.int 0, .int 2], [.int 1, .int 0]] := by decide
+
+/-! ## round 6: column names that need quoting (`Model/SemNames.lean`, stream `name-rebuild`) -/
+
+/-- stripping the qualifier the way the planner does keeps the column, for EVERY alias and EVERY name (dots, spaces, keywords …) -/
+theorem C08_names_bare_resolves (s : Scope) (n : Name) :
+    s.resolve (bareColumn [s.alias, n]) = s.resolve [s.alias, n] ∧ s.resolve (bareColumn [n]) = s.resolve [n] :=
+  ⟨resolve_bare_qualified s n, resolve_bare_unqualified s n⟩
+
+/-- parsing a name as a dotted path gives back the name iff it has no dot -/
+theorem C08_names_splitDots_iff (cs : Name) : splitDots cs = [cs] ↔ '.' ∉ cs :=
+  splitDots_eq_singleton_iff cs
+
+/-- `Identifier(name)` instead of `Identifier(parts=[name])` is the same rebuild exactly for names without a dot -/
+theorem C08_names_dotted_eq_bare_iff (t n : Name) : dottedColumn [t, n] = bareColumn [t, n] ↔ '.' ∉ n :=
+  dotted_eq_bare_iff t n
+
+/-- the DISTINCT key and the IN-filter column of the plan are the ON columns of the query -/
+theorem C08_names_plan_keys (q : QN) (n0 n1 : Name) (hl : q.onL = [q.l.alias, n0]) (hr : q.onR = [q.r.alias, n1]) :
+    q.planKeys bareColumn = (q.toQ2).map fun q2 => (q2.c0, q2.c1) :=
+  planKeys_bare q n0 n1 hl hr
+
+/-- the fragment theorem for queries written with NAMES (any names): the rebuilt key columns are those of the index form, whose
+plan returns the rows of the query -/
+theorem C08_names_partial_model (q : QN) (q2 : Q2) (n0 n1 : Name) (hl : q.onL = [q.l.alias, n0])
+    (hr : q.onR = [q.r.alias, n1]) (h2 : q.toQ2 = some q2) (hs : planSound q2 = true) (db : DB) :
+    q.planKeys bareColumn = some (q2.c0, q2.c1) ∧ execPlan (plan q2) db = evalQuery q2 db := by
+  refine ⟨?_, plan2_sound q2 db hs⟩
+  rw [planKeys_bare q n0 n1 hl hr, h2]
+  rfl
+
+def nmQ : Name := ['q']
+def nmQX : Name := ['q', '.', 'x']
+def nmX : Name := ['x']
+/-- a table called `q` with the columns `q.x`, `x`, `y` -/
+def nmScope : Scope := { alias := nmQ, cols := [nmQX, nmX, ['y']] }
+
+/-- counter-witness: the dotted rebuild of `q.`q.x`` is `q.x` = column `x` of `q` (index 1, silently the wrong column); in a
+table called otherwise it denotes nothing (the step cannot be carried out); the code's rebuild denotes column 0 -/
+theorem C08_names_witness_dotted :
+    nmScope.resolve (dottedColumn [nmQ, nmQX]) = some 1 ∧ nmScope.resolve (bareColumn [nmQ, nmQX]) = some 0 ∧
+    nmScope.resolve [nmQ, nmQX] = some 0 ∧
+    ({ nmScope with alias := ['t'] } : Scope).resolve (dottedColumn [['t'], nmQX]) = none := by decide
+
+/-- … and the key columns of the plan are then not those of the query -/
+theorem C08_names_witness_keys :
+    let q : QN := { kind := .inner, l := nmScope, r := { alias := ['r'], cols := [['k']] }, onL := [nmQ, nmQX], onR := [['r'], ['k']],
+                    w := none, limit := none }
+    q.planKeys dottedColumn = some (1, 0) ∧ q.planKeys bareColumn = some (0, 0) ∧
+    (q.toQ2).map (fun q2 => (q2.c0, q2.c1)) = some (0, 0) := by decide
 
 end MindsVerif.Props.C08
